@@ -174,6 +174,10 @@ class AnfTransformer(transformer.Base):
       return node
     if _is_trivial(node):
       return node
+    if isinstance(getattr(node, 'ctx', None), (ast.Store, ast.Del)):
+      # Binding and deletion targets are not values: replacing one with a
+      # variable would read it, and bind or delete the variable instead.
+      return node
     if isinstance(node, list):
       # If something's field was actually a list, e.g., variadic arguments.
       return [self._ensure_node_in_anf(parent, field, n) for n in node]
